@@ -139,7 +139,7 @@ func (c19) ID() string        { return "C19" }
 func (c19) CoqModule() string { return "Check_C19" }
 func (c19) Rule() string {
 	return "generated descriptions (0-2 global consumes/produces, 1-4 operations over all seven methods GET/POST/PUT/DELETE/OPTIONS/HEAD/PATCH x path templates with 0-2 own consumes/produces, " +
-		"base path absent or one of 8 spellings (root, trailing slash, dots, dashes, nested); templates of 1-3 segments with dots, dashes, underscores, tildes, at most one placeholder, or built around the base path (repeated as leading/trailing segments, substring of a segment); " +
+		"base path absent or one of 8 spellings (root, trailing slash, dots, dashes, nested); templates of 1-3 segments with dots, dashes, underscores, tildes, at most one placeholder, or built around the base path (repeated as leading/trailing segments, substring of a segment), one template in seven next to a path the standard entry point answers itself ({base}/docs, swagger.json: below it, above it, a near spelling - never the reserved path itself); " +
 		"0-3 security definitions basic/apiKey, global and per-operation requirements incl. empty, anonymous, AND/OR alternatives, undefined or unused schemes; media types lower-case mostly, " +
 		"rarely with upper-case letters or parameters) x registration sets: exact, each single omission, each single addition, case variants of media types/methods/paths, in half of the descriptions every operation registered under a spelling of its method of its own (upper, lower, capitalised, random case), JSON defaults kept or dropped, an operation registered under its full route, random subsets; " +
 		"every declared operation of each validated API is looked up in the real router under base path + template, and (simple descriptions) ONE handler is sent a history of requests: 2-3 rounds over all operations, each round in another order, " +
@@ -753,6 +753,9 @@ func (c19) Classify(inAny any, obsAny any) []string {
 		case unrouted[i]:
 			return nil
 		case k == 0:
+		case k == 3 && c19TakenByDocs(in, o, sv):
+			// F-C19-3: the operation's route IS the path of the documentation page / the description document
+			kf["validate.operation_on_reserved_ui_path"] = true
 		case k == 2 && obs.Default == "" && len(o.Produces) == 0 && len(in.GProduces) == 0:
 			// nothing to offer and no default producer
 			kf["validate.no_produces_no_default_producer"] = true
@@ -776,6 +779,25 @@ func (c19) Classify(inAny any, obsAny any) []string {
 	}
 	sort.Strings(out)
 	return out
+}
+
+// c19TakenByDocs (F-C19-3): the route of the operation is exactly the path at which Context.APIHandler serves the documentation
+// page ({base}/docs) or the description document (/swagger.json), no handler ran, and the answer is that page / that document
+func c19TakenByDocs(in c19In, o c19Op, sv c19Served) bool {
+	if sv.Shared.Ran != "" || path.Clean(o.Path) != o.Path || strings.Contains(o.Path, "{") {
+		return false
+	}
+	route := path.Join("/", in.BasePath, o.Path)
+	if path.Clean(sv.Target) != route {
+		return false
+	}
+	switch {
+	case route == path.Join("/", in.BasePath, "docs"):
+		return strings.HasPrefix(sv.Shared.Detail, "status 200 <!DOCTYPE html>") && strings.Contains(sv.Shared.Detail, "<redoc spec-url=")
+	case route == "/swagger.json":
+		return strings.HasPrefix(sv.Shared.Detail, "status 200 {") && strings.Contains(sv.Shared.Detail, `"swagger":"2.0"`)
+	}
+	return false
 }
 
 func (c19) Category(inAny any, obsAny any) (string, bool) {
@@ -811,6 +833,9 @@ func (c19) Category(inAny any, obsAny any) (string, bool) {
 			}
 			if b != "" && strings.Contains(o.Path, b) {
 				dots |= 2 // the base path occurs inside a template
+			}
+			if strings.Contains(o.Path, "docs") || strings.Contains(o.Path, "swagger") {
+				dots |= 4 // a template next to a path the entry point serves itself ({base}/docs, swagger.json)
 			}
 		}
 		bc := "none"
@@ -946,8 +971,58 @@ func c19Template(r *rand.Rand, base string) string {
 	return t
 }
 
+// the paths the standard entry point (Serve / Context.APIHandler) answers itself under the base path: the
+// documentation page and the description document. A declared operation NEXT TO them - below them, above them, or
+// named almost like them - is an operation like any other and must reach its handler.
+var c19Reserved = []string{"docs", "swagger.json"}
+
+// near spellings of the reserved words (a longer word, a shorter one, another extension, another case)
+var c19NearReserved = []string{"docs.json", "documents", "doc", "docs2", "docs-v2", "Docs", "DOCS", "swagger", "swagger.yaml", "swagger.json.bak",
+	"Swagger.json", "swagger.jsonl", "redoc", "swagger-ui", "docs~"}
+
+// c19ReservedTemplate: a template around a reserved word - never the reserved path itself (one segment equal to the
+// word), which the documentation middleware takes from the router on the unchanged library too
+func c19ReservedTemplate(r *rand.Rand) string {
+	seg := func() string { return c19Segs[r.Intn(len(c19Segs))] }
+	w := c19Reserved[r.Intn(len(c19Reserved))]
+	if r.Intn(4) != 0 {
+		w = "docs"
+	}
+	switch r.Intn(12) {
+	case 0, 1:
+		return "/" + w + "/{id}"
+	case 2:
+		return "/" + w + "/" + seg()
+	case 3:
+		return "/" + w + "/{id}/" + seg()
+	case 4:
+		return "/" + w + "/" + seg() + "/{id}"
+	case 5:
+		return "/" + w + "/" + c19Reserved[r.Intn(len(c19Reserved))]
+	case 6:
+		return "/" + seg() + "/" + w
+	case 7:
+		return "/{id}/" + w
+	case 8:
+		return "/" + w + "/" + seg() + "/" + seg() + "/" + seg()
+	default:
+		n := c19NearReserved[r.Intn(len(c19NearReserved))]
+		switch r.Intn(3) {
+		case 0:
+			return "/" + n
+		case 1:
+			return "/" + n + "/{id}"
+		default:
+			return "/" + w + "/" + n
+		}
+	}
+}
+
 func c19CleanTemplate(r *rand.Rand, base string) string {
 	seg := func() string { return c19Segs[r.Intn(len(c19Segs))] }
+	if r.Intn(7) == 0 {
+		return c19ReservedTemplate(r)
+	}
 	switch v := r.Intn(10); {
 	case v < 3:
 		return c19Paths[r.Intn(len(c19Paths))]
